@@ -203,6 +203,67 @@ class PolarsCheckDtype(_PlCore):
         return out
 
 
+class PolarsColumnSetDefault(_PlCore):
+    """ColumnBackend.set_default: `Column(default=v)` - "the default value for missing values in the column".  A value is missing when
+    it is null or, in a float column, NaN (pandas `fillna` fills both; "nulls and nan values are effectively equivalent"):
+        post.every_missing_value_becomes_the_default   per row: null or NaN -> v
+        post.present_values_are_kept                   per row: otherwise the value itself
+        post.other_columns_and_rows_untouched
+    """
+
+    target = f"{COLP}.set_default"
+    split = {"dtype": ["float", "other"], "default": ["value", "none"]}
+
+    def make_args(self):
+        from pandera.dtypes import DataType
+
+        a = super().make_args()
+        v = core.sym_real("default") if self.fixed.get("default", "value") == "value" else None
+        core.register_model_var("default", v.z) if v is not None else None
+        dt = T.Ref(DataType, type=T.Any).fresh("schema.dtype")
+        a["schema"] = T.Ref(None, default=T.Const(v), selector=T.Const("a"), name=T.Const("a"), dtype=T.Const(dt)).fresh("schema")
+        cur().ghost["default"] = v
+        return a
+
+    def ensures(self, result, old, self_, check_obj, schema):
+        lf, v = cur().ghost["lf"], cur().ghost["default"]
+        if v is None:
+            return {"no_default_returns_the_frame_itself": result is check_obj}
+        out = {"returns_a_frame_over_the_same_rows": isinstance(result, PP.FrameP) and result.space is lf.space and list(result.cols) == list(lf.cols)}
+        if not out["returns_a_frame_over_the_same_rows"]:
+            return out
+        i = z3.Int(cur().fresh_name("row"))
+        core.register_model_var("row", i)
+        src, dst = lf.cols["a"], result.cols["a"]
+        missing = z3.Or(src.null(i), src.nan(i))
+        out["same_rows_selected"] = SBool(result.sel(i) == lf.sel(i))
+        out["every_missing_value_becomes_the_default"] = SBool(z3.Implies(z3.And(lf.sel(i), missing), z3.And(z3.Not(dst.null(i)), z3.Not(dst.nan(i)), core.as_z3_bool(py_eq(dst.at(i), v)))))
+        out["present_values_are_kept"] = SBool(z3.Implies(z3.And(lf.sel(i), z3.Not(missing)), z3.And(z3.Not(dst.null(i)), z3.Not(dst.nan(i)), core.as_z3_bool(py_eq(dst.at(i), src.at(i))))))
+        out["other_columns_untouched"] = result.cols["b"] is lf.cols["b"]
+        return out
+
+    def concretize(self, rec):
+        def thunk():
+            """Column(float, default=2.0) over [1.0, None, NaN]"""
+            import math
+            import warnings
+
+            import polars as pl
+            import pandera.polars as pp
+            from pandera.backends.polars.components import ColumnBackend
+
+            warnings.simplefilter("ignore")
+            obs, bad = {}, False
+            for label, data, dt, default in (("float", [1.0, None, float("nan")], pl.Float64, 2.0), ("int", [1, None, 3], pl.Int64, 2)):
+                out = ColumnBackend().set_default(pl.LazyFrame({"a": data}, schema={"a": dt}), pp.Column(dt, name="a", default=default)).collect()["a"].to_list()
+                want = [default if (x is None or (isinstance(x, float) and math.isnan(x))) else x for x in data]
+                obs[label] = {"in": [repr(x) for x in data], "out": [repr(x) for x in out], "expected": [repr(x) for x in want]}
+                bad = bad or out != want
+            return bad, obs
+
+        return thunk
+
+
 class IsFloatDtype(Contract):
     """is_float_dtype(frame, selector): true iff EVERY column the selector matches is a float column (check_nullable / set_default then
     apply is_nan / is_not_nan to all of them: on a non-float column polars raises InvalidOperationError - C06).  Selections of 0-2 columns
@@ -303,7 +364,31 @@ def _standin(which):
     return run
 
 
+def _nullable_replay(self, rec):
+    def thunk():
+        """a non-nullable column over float data holding NaN and null, whatever dtype the schema declares: exactly those rows fail"""
+        import warnings
+
+        import polars as pl
+        import pandera.polars as pp
+        from pandera.backends.polars.components import ColumnBackend
+
+        warnings.simplefilter("ignore")
+        lf = pl.LazyFrame({"a": [1.0, float("nan"), None, 4.0]})
+        obs, bad = {}, False
+        for label, col in (("Column()", pp.Column(name="a")), ("Column(float)", pp.Column(float, name="a")), ("Column(int)", pp.Column(int, name="a"))):
+            rs = ColumnBackend().check_nullable(lf, col)
+            accepted = all(r.passed for r in rs)
+            masks = [r.check_output.lazy().collect().get_column(KEY).to_list() for r in rs if not r.passed and r.check_output is not None]
+            obs[label] = {"accepted": accepted, "check_output": masks}
+            bad = bad or accepted or masks != [[True, False, False, True]]
+        return bad, obs
+
+    return thunk
+
+
+PolarsCheckNullable.concretize = _nullable_replay
 PolarsCheckNullable.bounded_standin = staticmethod(_standin("nullable"))
 PolarsCheckUnique.bounded_standin = staticmethod(_standin("unique"))
 
-CONTRACTS = [PolarsCheckNullable, PolarsCheckNullableRegex, PolarsCheckUnique, PolarsCheckDtype, IsFloatDtype]
+CONTRACTS = [PolarsCheckNullable, PolarsCheckNullableRegex, PolarsCheckUnique, PolarsCheckDtype, IsFloatDtype, PolarsColumnSetDefault]
